@@ -8,6 +8,10 @@ import PetgraphModel.Proofs.StableGraphFilterMap
 import PetgraphModel.Proofs.StableGraphExtend
 import PetgraphModel.Proofs.StableGraphCompact
 import PetgraphModel.Proofs.StableGraphHistory
+import PetgraphModel.Proofs.C02W4Query
+import PetgraphModel.Proofs.C02W4Calls
+import PetgraphModel.Proofs.C02W4Extend
+import PetgraphModel.Proofs.C02W4History
 /-
 C02 — `StableGraph` keeps every surviving index valid and its bookkeeping exact.
 
@@ -324,5 +328,225 @@ def demoOps : List Op :=
 
 example : (run (empty true 255 false true) demoOps).toOption.map (fun p => (p.1.nodeCount, p.1.edgeCount, nodeIndices p.1)) =
     some (5, 0, [0, 1, 2, 3, 4]) := by decide
+
+/-! ## wave 4: queries, panicking variants, `extend_with_edges` in general, constructors
+
+`Spec/C02W4Queries.lean` gives the reference multigraph its OBSERVATIONS: `SpecQuery sp q out` says — in terms of the two
+partial maps only — which answers the reference admits for the query `q` (counts and bounds are determined, iterators up to
+order, the endpoint order of an undirected edge up to swapping, `find_edge*` any connecting live edge).  `SG.query` is the
+mirror model's implementation of all 23 read-only calls, `SG.pstep` the panicking call variants, `SG.callStep`/`SG.runCalls` one
+call / a history of mutating calls, panicking variants and queries, `SG.construct` the constructors. -/
+
+/-- **queries refine the reference, through `abs`**: in every state satisfying the invariant EVERY query — counts, bounds,
+`node_indices`/`edge_indices`/`node_references`/`edge_references`, `node_weight`/`contains_node`/`edge_weight`/
+`edge_endpoints`, `neighbors`/`neighbors_directed`/`neighbors_undirected`, `edges`/`edges_directed`, the detached walkers,
+`externals`, `find_edge`/`find_edge_undirected`/`contains_edge`, `edges_connecting` — returns normally (no out-of-bounds
+access, no non-termination, no failing `debug_assert!`) and its answer is one the reference multigraph `abs s` admits. -/
+theorem C02_query_refines (s : State) (q : Query) (hinv : Inv s) :
+    ∃ out, query s q = .ok out ∧ SpecQuery (abs s) q out :=
+  query_refines hinv q
+
+/-- the adjacency iterators spelled out (instances of `C02_query_refines`): each lists — in some order — exactly the items the
+reference computes from its edge map: `neighborsOf`/`walkOf`/`edgesOf` filter `edgeRefs` by `source = a` / `target = a` / either
+(a self-loop once), an undirected graph always uses "either" and orients `edges_directed` so that `a` is the source
+(`Outgoing`) resp. the target (`Incoming`). -/
+theorem C02_adjacency_refines (s : State) (a : Nat) (hinv : Inv s) :
+    (∃ l, neighbors s a = .ok l ∧ l.Perm ((abs s).neighborsOf a 0)) ∧
+    (∃ l, neighborsDirected s a 0 = .ok l ∧ l.Perm ((abs s).neighborsOf a 0)) ∧
+    (∃ l, neighborsDirected s a 1 = .ok l ∧ l.Perm ((abs s).neighborsOf a 1)) ∧
+    (∃ l, neighborsUndirected s a = .ok l ∧ l.Perm ((abs s).neighborsOf a 2)) ∧
+    (∀ dirIn, ∃ l, edgesDirected s a dirIn = .ok l ∧ (l.map erefT).Perm ((abs s).edgesOf a dirIn)) ∧
+    (∀ k, ∃ l, walker s a k = .ok l ∧ l.Perm ((abs s).walkOf a k)) :=
+  ⟨(neighbors_refines hinv a).1, (neighbors_refines hinv a).1, (neighbors_refines hinv a).2.1, (neighbors_refines hinv a).2.2,
+   fun d => edgesDirected_refines hinv a d, fun k => walker_refines hinv a k⟩
+
+/-- **`edges_connecting(a, b)`** lists — in some order — exactly the live edges of the reference that lead from `a` to `b`
+(that connect `a` and `b`, in an undirected graph; a self-loop once), each reported as `(id, a, b, weight)`. -/
+theorem C02_edges_connecting (s : State) (a b : Nat) (hinv : Inv s) :
+    ∃ l, edgesConnecting s a b = .ok l ∧ (l.map erefT).Perm ((abs s).connecting a b) :=
+  edgesConnecting_refines hinv a b
+
+/-- `externals(dir)` through `abs` (all directions, both edge types): exactly the live nodes of the reference without an
+incident edge in that mode. -/
+theorem C02_externals_refines (s : State) (dirIn : Bool) (hinv : Inv s) :
+    (externals s (dirK dirIn)).Perm ((abs s).externalsOf dirIn) :=
+  externals_refines hinv dirIn
+
+/-- **the executable judge IS the specification**: the Boolean `specQueryB`, which the driver evaluates on every answer of the
+IMPLEMENTATION to a query, accepts exactly the answers the reference admits. -/
+theorem C02_query_judge_iff (sp : Spec) (q : Query) (out : QOut) : specQueryB sp q out = true ↔ SpecQuery sp q out :=
+  specQueryB_iff sp q out
+
+/-- **the panicking call variants** (`add_node`, `add_edge`, `update_edge`, `Index`, `IndexMut`, `index_twice_mut`): no fault;
+the invariant is kept; the call is a transition `SpecPStep` of the reference, i.e. it panics EXACTLY under its documented
+condition `Spec.panics` — `add_node`: every valid node index is live; `add_edge`: an endpoint is absent or every valid edge
+index is live; `update_edge`: no connecting edge exists and `add_edge` would panic; `Index`/`IndexMut`: the element is absent;
+`index_twice_mut`: same kind and same index, or an element is absent — and otherwise does what the `try_`/`Option` twin does;
+and a panic leaves the CONCRETE state equal. -/
+theorem C02_panicking_variants (s : State) (c : PCall) (hinv : Inv s) :
+    ∃ s' out, pstep s c = .ok (s', out) ∧ Inv s' ∧ s'.fin = s.fin ∧ SpecPStep s.fin (abs s) c out (abs s') ∧
+      (out = .panic → s' = s) :=
+  pstep_refines hinv c
+
+/-- **no valid call panics, and every invalid one does**: the answer is `panic` iff the documented panic condition holds in
+the reference. -/
+theorem C02_panic_iff (s s' : State) (c : PCall) (out : POut) (hinv : Inv s) (h : pstep s c = .ok (s', out)) :
+    out = .panic ↔ (abs s).panics s.fin c = true := by
+  obtain ⟨s1, o1, h1, _, _, href, _⟩ := pstep_refines hinv c
+  rw [h] at h1; cases h1
+  unfold SpecPStep at href
+  by_cases hp : (abs s).panics s.fin c = true
+  · simp only [hp, if_true] at href; simp [href.1, hp]
+  · simp only [hp, Bool.false_eq_true, if_false] at href
+    constructor
+    · rintro rfl; cases c <;> simp at href
+    · intro h'; exact absurd h' hp
+
+/-- **`extend_with_edges` in general** (no `hvalid`/`hfit`): it never faults and keeps the invariant; it completes iff the
+request fits the index type (`extendFits`, spelled out in `C02_extend_fits_iff`) and panics otherwise; a completed call is a
+run of `SpecExtend` — for every listed edge, in order, the missing endpoints are created with the default weight and the edge
+gets ANY valid index that was not live; exactly `l.length` edges are added — and a panicking call is a run of `SpecExtendP`:
+the edges before the first one that does not fit have been inserted as above, and of the offending edge only the endpoints that
+are valid indices have been created (source first); nothing else is observable. -/
+theorem C02_extend_general (s : State) (l : List (Nat × Nat × Int)) (hinv : Inv s) :
+    ∃ s' p, extendWithEdges s l = .ok (s', p) ∧ Inv s' ∧ s'.fin = s.fin ∧
+      p = !extendFits s.fin s.edgeCount l ∧
+      (p = false → SpecExtend s.fin (abs s) l (abs s') ∧ s'.edgeCount = s.edgeCount + l.length) ∧
+      (p = true → SpecExtendP s.fin (abs s) l (abs s')) :=
+  extendWithEdges_general l hinv
+
+/-- the request fits iff every named node index is a valid index of the index type and the live edges plus the listed ones do
+not exceed the number of valid edge indices. -/
+theorem C02_extend_fits_iff (fin ec : Nat) (l : List (Nat × Nat × Int)) :
+    extendFits fin ec l = true ↔ (∀ x ∈ l, x.1 < fin ∧ x.2.1 < fin) ∧ (l = [] ∨ ec + l.length ≤ fin) :=
+  extendFits_iff fin ec l
+
+/-- why `SpecExtendP` speaks of `equiv` and not of equality: the statement "a panicking `extend_with_edges` whose first source is
+not a valid index leaves the reference EQUAL" is false — the padding pushed before the inner `add_node` panics stays behind
+as vacant slots (unobservable through the API: counts, bounds and every iterator skip them).  Witness: index type with 3 valid
+indices, `extend_with_edges([(5, 0, 1)])` on the empty graph. -/
+theorem C02_extend_panic_eq_false_witness :
+    ∃ (s s' : State) (l : List (Nat × Nat × Int)), Inv s ∧ (extendWithEdges s l).toOption = some (s', true) ∧
+      abs s' ≠ abs s ∧ (abs s').equiv (abs s) := by
+  refine ⟨SG.empty true 3 false true,
+    { SG.empty true 3 false true with nodes := [⟨none, 3, 1⟩, ⟨none, 0, 2⟩, ⟨none, 1, 3⟩], freeNode := 2 },
+    [(5, 0, 1)], inv_empty _ _ _ _, by decide, by decide, rfl, fun i => ?_, fun e => rfl⟩
+  rcases i with _ | _ | _ | i <;> rfl
+
+/-- **constructors.** `new()` / `default()` / `with_capacity(_, _)`: the empty reference.  `from_edges(l)`: `extend_with_edges`
+on the empty graph — it panics iff the request does not fit.  `from_elements(els)`: never a fault; the result is EXACTLY
+`fromElementsSpecW` — the `i`-th `Node` element is node `i`, the `j`-th `Edge` element is edge `j` between the nodes its
+(`from_index`-wrapped) endpoints name, and the documented panic occurs iff an edge names a node that has not been created or
+the index type is exhausted.  Every constructed graph satisfies the invariant. -/
+theorem C02_constructors (directed : Bool) (fin : Nat) (noLimit debug : Bool) :
+    (construct directed fin noLimit debug .new = .ok (some (empty directed fin noLimit debug)) ∧
+      abs (empty directed fin noLimit debug) = SGSpec.empty directed) ∧
+    (∀ l, ∃ r, construct directed fin noLimit debug (.fromEdges l) = .ok r ∧
+      (r = none ↔ extendFits fin 0 l = false) ∧
+      (∀ g, r = some g → Inv g ∧ g.fin = fin ∧ SpecExtend fin (SGSpec.empty directed) l (abs g))) ∧
+    (∀ els, ∃ r, construct directed fin noLimit debug (.fromElements els) = .ok r ∧
+      r.map abs = fromElementsSpecW fin (wrapIx fin noLimit) els (SGSpec.empty directed) ∧
+      (∀ g, r = some g → Inv g ∧ g.fin = fin)) := by
+  have hinv := inv_empty directed fin noLimit debug
+  refine ⟨⟨rfl, rfl⟩, fun l => ?_, fun els => ?_⟩
+  · obtain ⟨s', p, h, hinv', hfin, hp, hok, _⟩ := extendWithEdges_general l hinv
+    cases p with
+    | false =>
+      refine ⟨some s', by simp [construct, h], ?_, fun g hg => ?_⟩
+      · have : extendFits fin 0 l = true := by simpa [SG.empty] using hp
+        simp [this]
+      · cases hg; exact ⟨hinv', hfin, (hok rfl).1⟩
+    | true =>
+      refine ⟨none, by simp [construct, h], ?_, fun g hg => by cases hg⟩
+      have : extendFits fin 0 l = false := by simpa [SG.empty] using hp
+      simp [this]
+  · obtain ⟨r, hr, hspec, hrest⟩ := fromElementsLoop_refines els hinv ⟨rfl, rfl⟩
+    exact ⟨r, hr, hspec, fun g hg => ⟨(hrest g hg).1, (hrest g hg).2.2⟩⟩
+
+/-- **all histories of the whole public API**: starting from ANY constructor, for every finite sequence of calls — the 17
+mutating call forms, the panicking variants, the 23 queries, in any order, with valid or invalid arguments — for both edge
+types, every index width, debug and release: the constructor does not fault; if it does not panic the graph satisfies the
+invariant, no call of the history faults, the invariant holds at the end, and all answers and states are a run `SpecCalls` of
+the reference machine (`SpecCall`: a mutating call is a `SpecStep`, and `extend_with_edges` panics exactly when the request does
+not fit and then leaves exactly the processed prefix; a panicking variant is a `SpecPStep`, i.e. panics exactly under its
+documented condition and then changes nothing; a query leaves the state unchanged and answers what `SpecQuery` admits). -/
+theorem C02_calls_all_histories (directed : Bool) (fin : Nat) (noLimit debug : Bool) (ctor : Ctor) (cs : List Call) :
+    ∃ r, construct directed fin noLimit debug ctor = .ok r ∧
+      ∀ g, r = some g → Inv g ∧ g.fin = fin ∧
+        ∃ s' outs, runCalls g cs = .ok (s', outs) ∧ Inv s' ∧ outs.length = cs.length ∧
+          SpecCalls fin (abs g) cs outs (abs s') := by
+  have hc := C02_constructors directed fin noLimit debug
+  have key : ∀ g, Inv g → g.fin = fin → ∃ s' outs, runCalls g cs = .ok (s', outs) ∧ Inv s' ∧ outs.length = cs.length ∧
+      SpecCalls fin (abs g) cs outs (abs s') := by
+    intro g hg hf
+    obtain ⟨s', outs, h, hinv', _, hlen, href⟩ := runCalls_refines cs hg
+    rw [hf] at href
+    exact ⟨s', outs, h, hinv', hlen, href⟩
+  cases ctor with
+  | new =>
+    exact ⟨_, hc.1.1, fun g hg => by cases hg; exact ⟨inv_empty _ _ _ _, rfl, key _ (inv_empty _ _ _ _) rfl⟩⟩
+  | fromEdges l =>
+    obtain ⟨r, hr, _, hrest⟩ := hc.2.1 l
+    exact ⟨r, hr, fun g hg => ⟨(hrest g hg).1, (hrest g hg).2.1, key g (hrest g hg).1 (hrest g hg).2.1⟩⟩
+  | fromElements els =>
+    obtain ⟨r, hr, _, hrest⟩ := hc.2.2 els
+    exact ⟨r, hr, fun g hg => ⟨(hrest g hg).1, (hrest g hg).2, key g (hrest g hg).1 (hrest g hg).2⟩⟩
+
+/-! ### run-time checks of the hypotheses
+
+The theorems above have no hypothesis about the concrete case except `Inv s`, which `C02_calls_all_histories` discharges for
+every state the driver can be in (its model state is `construct` followed by `callStep`s).  The one place where the driver
+relies on a condition of the generated INPUT is `from_elements`: it judges the implementation against `fromElementsSpec` (no
+index wrap-around), which coincides with the proved `fromElementsSpecW` when every endpoint named by an `Edge` element is
+representable in the index type.  The driver evaluates `elemsInRangeB` on every `from_elements` request and answers
+`SPECFAIL generator left the proved range` otherwise. -/
+
+theorem C02_elems_in_range_check (directed : Bool) (fin : Nat) (noLimit debug : Bool) (els : List Elem)
+    (h : elemsInRangeB fin els = true) :
+    ∃ r, construct directed fin noLimit debug (.fromElements els) = .ok r ∧
+      r.map abs = fromElementsSpec directed fin els (SGSpec.empty directed) := by
+  obtain ⟨r, hr, hspec, _⟩ := (C02_constructors directed fin noLimit debug).2.2 els
+  refine ⟨r, hr, ?_⟩
+  rw [hspec]
+  apply fromElementsSpecW_id
+  intro a b w hm
+  have := List.all_eq_true.1 h _ hm
+  simp only [Bool.and_eq_true, decide_eq_true_eq] at this
+  unfold wrapIx
+  cases noLimit
+  · simp only [Bool.false_eq_true, if_false]
+    exact ⟨Nat.mod_eq_of_lt (by omega), Nat.mod_eq_of_lt (by omega)⟩
+  · simp
+
+/-! non-vacuity of the wave-4 statements: a `u8` history through a constructor, panicking variants that panic and that do not,
+queries on a state with vacancies, a self-loop and parallel edges; an `extend_with_edges` that panics half-way -/
+def demoCalls : List Call :=
+  [.p (.addNode 1), .p (.addNode 2), .p (.addNode 3), .p (.addEdge 0 1 10), .p (.addEdge 1 1 11), .p (.addEdge 0 1 12),
+   .op (.removeNode 2), .p (.addEdge 0 2 13), .p (.indexNode 2), .p (.updateEdge 1 0 14), .q (.neighborsUndirected 1),
+   .q (.edgesConnecting 0 1), .q (.edgesDirected 1 true), .q (.externals false), .q (.findEdgeUndirected 1 0),
+   .p (.indexTwice true false 0 1 7 8)]
+
+/-- the answers of the panicking variants and of the queries of a history -/
+def pqOuts (outs : List COut) : List (POut ⊕ QOut) :=
+  outs.filterMap fun o => match o with | .p x => some (.inl x) | .q y => some (.inr y) | .op _ => none
+
+example : (runCalls (SG.empty false 255 false true) demoCalls).toOption.map (fun p => (pqOuts p.2).drop 6) =
+    some [.inl .panic, .inl .panic, .inl (.idx 2), .inr (.nats [1, 0, 0]), .inr (.erefs [(2, 0, 1, 14), (0, 0, 1, 10)]),
+      .inr (.erefs [(1, 1, 1, 11), (2, 0, 1, 14), (0, 0, 1, 10)]), .inr (.nats []), .inr (.optDir (some (2, true))),
+      .inl .unit] := by
+  decide
+
+example : (extendWithEdges (SG.empty true 3 false true) [(0, 2, 5), (1, 3, 6), (0, 0, 7)]).toOption.map
+      (fun p => (p.2, nodeReferences p.1)) = some (true, [(0, 0), (1, 0), (2, 0)]) ∧
+    (extendWithEdges (SG.empty true 3 false true) [(0, 2, 5), (1, 3, 6), (0, 0, 7)]).toOption.map
+      (fun p => (edgeReferences p.1).map erefT) = some [(0, 0, 2, 5)] := by decide
+
+example : extendFits 3 0 [(0, 2, 5), (1, 3, 6), (0, 0, 7)] = false ∧ extendFits 3 0 [(0, 2, 5), (1, 2, 6), (0, 0, 7)] = true := by
+  decide
+
+example : (construct true 255 false true (.fromElements [.node 5, .node 6, .edge 0 1 7, .edge 1 1 8])).toOption.map
+      (fun r => r.map abs) =
+    some (fromElementsSpec true 255 [.node 5, .node 6, .edge 0 1 7, .edge 1 1 8] (SGSpec.empty true)) ∧
+    (construct true 255 false true (.fromElements [.node 5, .edge 0 1 7])).toOption = some none := by decide
 
 end PetgraphModel.C02T
